@@ -419,8 +419,9 @@ func c03hdr(p *Program, r *Report, rule string) {
 				detail = append(detail, "payloadLength = "+pl+" on a path with a valid length marker")
 			}
 		}
-		// negative length must have been excluded
-		if _, isConst := avInt(get("payloadLength")); !isConst {
+		// negative length must have been excluded where it can occur: only the conversion of the 64-bit length can be negative
+		// (a 7-bit marker and a 16-bit length are non-negative after conversion to int64)
+		if keyIs(get("payloadLength"), "convert:int64(call:(binary.bigEndian).Uint64@@)") {
 			if v, ok := decidedLike(pa, get("payloadLength").Key()+" < 0"); !ok || v {
 				okNeg = false
 			}
@@ -602,8 +603,30 @@ func c03full(p *Program, r *Report, rule string) {
 }
 
 func derivesFromField(v ssa.Value, f *types.Var) bool {
+	return derivesFromFieldD(v, f, 0)
+}
+
+func derivesFromFieldD(v ssa.Value, f *types.Var, depth int) bool {
 	for i := 0; i < 8; i++ {
 		switch x := v.(type) {
+		case *ssa.Parameter:
+			// a parameter of a helper outside the reference tree stands for what its call sites pass
+			p := curProg
+			if p == nil || depth > 3 || x.Parent() == nil || x.Parent().Parent() != nil || !p.isLib(x.Parent()) || knownFuncs[p.rawName(x.Parent())] {
+				return false
+			}
+			idx := -1
+			for k, prm := range x.Parent().Params {
+				if prm == x {
+					idx = k
+				}
+			}
+			for _, cs := range p.CallersOf(x.Parent()) {
+				if args := cs.Instr.Common().Args; idx >= 0 && idx < len(args) && derivesFromFieldD(args[idx], f, depth+1) {
+					return true
+				}
+			}
+			return false
 		case *ssa.UnOp:
 			if x.Op == token.MUL {
 				if fa, ok := x.X.(*ssa.FieldAddr); ok && fieldOf(fa) == f {
